@@ -372,7 +372,122 @@ func (pf *pfunc) proveAt(b *ssa.BasicBlock, g pgoal, extra []fact, depth int) bo
 			return true
 		}
 	}
+	if g.l != nil && pf.goalInduction(b, g.l, carried, depth, trace) {
+		return true
+	}
 	return false
+}
+
+// goalInduction: the goal itself as a loop invariant. For a loop header h that dominates b and whose
+// phis the goal mentions, with every other atom of the goal fixed before the loop is entered: the goal
+// with the phis replaced by their initial values holds on every entry edge, and, assuming the goal at
+// the header, the goal with the phis replaced by their next values holds at the end of every latch.
+func (pf *pfunc) goalInduction(b *ssa.BasicBlock, g *lin, carried []fact, depth int, trace bool) bool {
+	if pf.inGoalInd > 1 {
+		return false
+	}
+	heads := map[*ssa.BasicBlock]bool{}
+	for _, a := range g.atoms {
+		if ph, ok := a.val.(*ssa.Phi); ok && a.op == "phi" {
+			heads[ph.Block()] = true
+		}
+		if a.op == "len" && len(a.args) == 1 && a.args[0].op == "phi" {
+			if ph, ok := a.args[0].val.(*ssa.Phi); ok {
+				heads[ph.Block()] = true
+			}
+		}
+	}
+	for h := range heads {
+		if !(h == b || h.Dominates(b)) {
+			continue
+		}
+		var latches []*ssa.BasicBlock
+		for _, p := range h.Preds {
+			if h.Dominates(p) {
+				latches = append(latches, p)
+			}
+		}
+		if len(latches) == 0 || len(latches) == len(h.Preds) {
+			continue
+		}
+		in := loopBlocks(h, latches)
+		invariant := true
+		for _, a := range g.atoms {
+			if ph, ok := a.val.(*ssa.Phi); ok && a.op == "phi" && ph.Block() == h {
+				continue
+			}
+			if a.op == "len" && len(a.args) == 1 && a.args[0].op == "phi" {
+				if ph, ok := a.args[0].val.(*ssa.Phi); ok && ph.Block() == h {
+					continue // the length of a slice carried round the loop: replaced edge by edge like the phi itself
+				}
+			}
+			if !pf.fixedOutside(a, in, 0) {
+				invariant = false
+			}
+		}
+		if !invariant {
+			continue
+		}
+		if trace {
+			fmt.Fprintf(os.Stderr, "%s   induction on the loop at b%d with the goal as invariant\n", strings.Repeat("  ", depth), h.Index)
+		}
+		pf.inGoalInd++
+		ok := true
+		for i, p := range h.Preds {
+			gi := pf.substPhis(g, h, i)
+			var extra []fact
+			if h.Dominates(p) {
+				extra = []fact{{l: g, why: "induction hypothesis (the goal at the loop header)"}}
+			}
+			if !pf.proveAt(p, pgoal{l: gi}, extra, depth+1) {
+				ok = false
+				break
+			}
+		}
+		pf.inGoalInd--
+		if ok {
+			return true
+		}
+	}
+	return false
+}
+
+// fixedOutside: the value number denotes one value for the whole run of the loop: constants, parameters,
+// values defined outside the loop, and lengths/sums of such.
+func (pf *pfunc) fixedOutside(n *vn, loop map[*ssa.BasicBlock]bool, depth int) bool {
+	if n == nil || depth > 6 {
+		return false
+	}
+	switch n.op {
+	case "const", "param", "free":
+		return true
+	case "load":
+		// a load is fixed if it was taken outside the loop (a later store cannot change the loaded value)
+		if n.at.b != nil {
+			return !loop[n.at.b]
+		}
+		if strings.HasSuffix(n.key, "@entry") {
+			return true
+		}
+		return false
+	case "phi", "call", "extract", "makeslice", "alloc", "copy", "append", "lookup":
+		if in, ok := n.val.(ssa.Instruction); ok && in.Block() != nil {
+			return !loop[in.Block()]
+		}
+		return false
+	}
+	if len(n.args) == 0 {
+		if in, ok := n.val.(ssa.Instruction); ok && in.Block() != nil {
+			return !loop[in.Block()]
+		}
+		return n.val == nil || func() bool { _, isP := n.val.(*ssa.Parameter); return isP }()
+	}
+	for _, a := range n.args {
+		if !pf.fixedOutside(a, loop, depth+1) {
+			return false
+		}
+	}
+	return true
 }
 
 // candidateMerges: merge blocks worth splitting on for this goal — where the goal's phis
@@ -1174,6 +1289,12 @@ func (pf *pfunc) implicitFacts(atoms map[string]*vn, fs *factSet) {
 		}
 		if a.op == "phi" {
 			pf.inductionFacts(a, fs)
+		}
+		if a.op == "copy" && len(a.args) == 2 {
+			// n = copy(dst, src): 0 <= n <= len(dst), n <= len(src)
+			fs.add(fact{l: la, why: "copy returns n >= 0"})
+			fs.add(fact{l: pf.linOf(pf.mkLen(a.args[0])).sub(la), why: "copy returns n <= len(dst)"})
+			fs.add(fact{l: pf.linOf(pf.mkLen(a.args[1])).sub(la), why: "copy returns n <= len(src)"})
 		}
 		if a.op == "bin" && a.tok == token.REM && a.args[1].op == "const" && !pf.inQuot {
 			if cm, ok := constValInt(a.args[1].c); ok && cm.Sign() > 0 && cm.IsInt64() {
